@@ -5,7 +5,7 @@ CRATE = "e_segtree"
 DRIVER = "drv_segtree"
 DRIVER_MODULE = "Driver.Segtree"
 PROPS = "RlibModel.Props.C01"
-PROFILES = ["release"]
+PROFILES = ["release", "debug"]   # debug: debug_assertions on (code that misbehaves only under cfg!(debug_assertions)); release: off
 SHRINK_SEP = ";"
 RULE = ("one case = one operation history `item ctor n values ; op ; op ...` run on the real Segtree, the Lean model and the "
         "plain-list spec. Items: Min/Max/Sum/MinAdd/MaxAdd/SumAdd at i64, Combinator<MinAdd,MaxAdd>, "
@@ -30,6 +30,23 @@ RULE = ("one case = one operation history `item ctor n values ; op ; op ...` run
         "node) and answers `S any` for the whole line if any call of the history would overflow. Operations outside 0 <= l <= r < n are outside the property's domain: their view "
         "and spec are `ood` on all sides (the model still mirrors the panic in raw, so a changed assert is drift, not a violation). "
         "Plain values are built with the items' own From<i64>; `v@md` values with struct literals. "
+        "WAVE 3 additions. (D) Element types whose equal-comparing values are distinguishable: the harness's record `Rec {key, tag, pad: String}` "
+        "(PartialEq/PartialOrd look at `key` only; Clone, not Copy) under Min/Max/MinAdd/MaxAdd/Combinator<MinAdd,MaxAdd> (`min:rec` ... `mm:rec`, "
+        "half of the keys from a three-key range so that duplicated minima / maxima are everywhere), and f64 / f32 (`min:f64` ... `mm:f32`): under "
+        "Min/Max any non-NaN value (both zeros, subnormals, +-MAX, the lawful infinity, quarters in [-2,2], random bit patterns), under "
+        "Sum/MinAdd/MaxAdd/SumAdd/Combinator integer-valued floats far inside the range where + and * are exact; all float results are compared "
+        "as BIT PATTERNS; `sum:cat` = Sum over a string type whose + is concatenation (associative, not commutative). The observable value of these items is the whole element, so view = spec pins WHICH of several equal-comparing "
+        "minima a query returns: the one the left-to-right merge fold returns (Min::merge's own tie rule: the last one). Stream (1b): every "
+        "history of length <= 2 (3 in thorough) over n <= 5 on arrays whose elements all tie (same key / both zeros, own tag) with set / ask / "
+        "copy-back (and the searches for C02). i16 and u16 joined the typed stream (2b); `const f64`, `const f32` compare the float trait "
+        "constants as bit patterns. (A) every item returned by `ask` is cloned, `clone_from`-ed into a fresh (Default) and into a USED "
+        "destination (the previously returned item) and must render identically (view gets ` clone!` otherwise); every other `set` passes its "
+        "value through clone_from; op `dfl` compares Default::default() with the model's and with the harness's own identity (` dflt!`); "
+        "constructors `iterp` / `iterr` call from_iter on a partially consumed / a reversed ExactSizeIterator. (B) one random history in four "
+        "runs TWO live trees of the type interleaved on one thread (ops prefixed `b`), the second one element longer. (C) values the API "
+        "returned are fed back: `cp i l r` = set(i, ask(l,r)), `x i l r` = other.set(i, this.ask(l,r)), `y slice|iter|new` rebuilds the other "
+        "tree from the n single-element asks / from ask(0,n-1) (at most three per history). (E) every item once per run (8x thorough) on "
+        "n in {255,256,257,511,513,1000,1024,1025} with a short history. Both build profiles are run (debug: debug_assertions on). "
         "Compared: `{:?}` of every returned item (raw), observable value of every ask, every debug() rendering, answers and probe "
         "values of the searches. generator_histogram counts the op kinds and how many asks / sets / modifies / searches pushed a non-identity pending "
         "tag on their way down (`*_pushed_pending_tag`). non-trivial = history with at least one range modification followed by a query")
@@ -38,6 +55,8 @@ ASSUMPTIONS = [
     "integer overflow inside the built-in items is outside the property's domain: at i64 values and modifiers are kept far below 2^63; at the narrow / unsigned element types the generator keeps every history inside the type by construction and the Lean driver decides independently (overflow guard run with the model, proved not to change any observable answer: guarded_lawful, guarded_spec_is_item_spec) - an overflowing history gets `S any`. The guard mirrors the arithmetic of the items' merge/modify/push as written in segtree_items.rs (hand-written, cross-checked against the real overflow panics: 6000 random i8/u8 histories, guard flag <=> panic:overflow)",
     "the trait constants <T as MinMax>::MIN/MAX, <T as ZeroOne>::ZERO/ONE equal the model's IntTy.minVal/maxVal, 0, 1: compared for all twelve integer types on every run (`const <type>` lines)",
     "the item laws (Lawful) are proved for the Lean instances; that the Rust items are those instances is checked by the same differential run",
+    "floats: NaN is outside every law (PartialOrd); the model orders non-NaN bit patterns by FloatFmt.ordKey (sign-magnitude image, both zeros -> 0; monotonicity proved in C02.float_constants) - that IEEE `<` on non-NaN values is this order is a standard fact, not proved, and cross-checked on every run by the harness's shadow algebra, which compares with the standard library's `<` / `>`; under the additive items floats are integer-valued and small (|x| < 2^(mantissa+1) is checked per history by the driver: `S any` otherwise), so that + and * are exact and the model computes in Int; -0.0 is not fed to the additive items (-0.0 + 0.0 = +0.0: MinAdd/MaxAdd<f64> do not preserve the sign of a zero through a push of the identity tag - equal under ==, the only equality their laws can mean)",
+    "the record type Rec, the clone / clone_from / Default checks (`clone!`, `dflt!` markers) and the shadow algebra with merge's tie rule are independent brute-force oracles inside the harness (view side); transfers and rebuilds store the item the model's own ask returned in the plain list (C01.transfer_refines, rebuild_refines: an ask followed by a set / constructor call on the returned item)",
 ]
 TRUSTED_EXTRA = ["harness items affHash/strCat are defined twice (Rust, Lean) and compared by the differential run"]
 MANIFEST = {
@@ -47,7 +66,10 @@ MANIFEST = {
              "modelled lazy tree refine a plain list (ask = in-order fold, modify = modifier applied to each covered element), for every "
              "size, every history (history_refines) and all three constructors; the six built-in items at every integer element type "
              "(the type fixes Default = <T as MinMax>::MAX / MIN), every Combinator nesting and the "
-             "harness's non-commutative items are proved lawful; running an item together with the overflow guard changes no observable answer; a Combinator tree answers every set/modify/ask/debug history with the pairs of "
+             "harness's non-commutative items are proved lawful, and so are Min/Max/MinAdd/MaxAdd over element types whose order ignores part of "
+             "the value (records ordered by key, floats with +0.0/-0.0) with the WHOLE element observable - which fixes the tie rule of every "
+             "query to merge's own (keyed_lawful, keyed_ties_go_right; an update override with the opposite tie-break is proved unlawful), and Sum over a non-commutative + (sum_noncommutative_lawful); "
+             "feeding a returned item back into set of the same or another tree, or into a constructor, is an ask followed by a set / constructor call (transfer_refines, rebuild_refines); running an item together with the overflow guard changes no observable answer; a Combinator tree answers every set/modify/ask/debug history with the pairs of "
              "its component trees' answers (prod_runs_side_by_side). The hand-written model is tied to rlib_segtree by a differential "
              "correspondence run on every check."),
     "note": ("Trusted: Lean kernel, axioms propext/Classical.choice/Quot.sound, the hand-written model (recursion tree; the array layout "
